@@ -107,6 +107,7 @@ type Unit struct {
 	Empty  string `json:"empty,omitempty"`  // kind of empty form: str map struct slice
 	Multi  bool   `json:"multi,omitempty"`  // expr form: top-level and given as several arguments
 	Inline bool   `json:"inline,omitempty"` // given to the finisher instead of Where
+	Mirror bool   `json:"mirror,omitempty"` // columns a / b are written as their mirrors ora / bandb
 }
 
 func (u Unit) JSON() hx.M {
@@ -170,6 +171,18 @@ type rawOut struct {
 	named []interface{}
 }
 
+func (u Unit) col(c string) string {
+	if u.Mirror {
+		switch c {
+		case "a":
+			return "ora"
+		case "b":
+			return "bandb"
+		}
+	}
+	return c
+}
+
 // renderRaw renders the AST as SQL text with '?' (or @pN) holes.
 func renderRaw(n *Node, u Unit, named bool, ctr *int, top bool) (string, []interface{}) {
 	hole := func(v interface{}) (string, []interface{}) {
@@ -184,7 +197,7 @@ func renderRaw(n *Node, u Unit, named bool, ctr *int, top bool) (string, []inter
 	case "atom":
 		switch n.Op {
 		case "isnull":
-			return n.Col + " " + kw("IS", u.Case) + " " + kw("NULL", u.Case), nil
+			return u.col(n.Col) + " " + kw("IS", u.Case) + " " + kw("NULL", u.Case), nil
 		case "in":
 			vals := make([]interface{}, len(n.Vs))
 			for i, c := range n.Vs {
@@ -196,18 +209,18 @@ func renderRaw(n *Node, u Unit, named bool, ctr *int, top bool) (string, []inter
 					ss[i] = vals[i].(string)
 				}
 				h, a := hole(ss)
-				return n.Col + " " + kw("IN", u.Case) + " " + h, a
+				return u.col(n.Col) + " " + kw("IN", u.Case) + " " + h, a
 			}
 			is := make([]int64, len(vals))
 			for i := range vals {
 				is[i] = vals[i].(int64)
 			}
 			h, a := hole(is)
-			return n.Col + " " + kw("IN", u.Case) + " " + h, a
+			return u.col(n.Col) + " " + kw("IN", u.Case) + " " + h, a
 		}
 		ops := map[string]string{"eq": "=", "ne": "<>", "lt": "<", "gt": ">", "like": kw("LIKE", u.Case)}
 		h, a := hole(n.V.Go())
-		return n.Col + " " + ops[n.Op] + " " + h, a
+		return u.col(n.Col) + " " + ops[n.Op] + " " + h, a
 	case "not":
 		s, a := renderRaw(n.X, u, named, ctr, false)
 		return kw("NOT", u.Case) + " (" + s + ")", a
@@ -232,43 +245,43 @@ func renderRaw(n *Node, u Unit, named bool, ctr *int, top bool) (string, []inter
 	panic("renderRaw " + n.K)
 }
 
-func renderExpr(n *Node) clause.Expression {
+func renderExpr(n *Node, u Unit) clause.Expression {
 	switch n.K {
 	case "atom":
 		switch n.Op {
 		case "eq":
-			return clause.Eq{Column: n.Col, Value: n.V.Go()}
+			return clause.Eq{Column: u.col(n.Col), Value: n.V.Go()}
 		case "ne":
-			return clause.Neq{Column: n.Col, Value: n.V.Go()}
+			return clause.Neq{Column: u.col(n.Col), Value: n.V.Go()}
 		case "lt":
-			return clause.Lt{Column: n.Col, Value: n.V.Go()}
+			return clause.Lt{Column: u.col(n.Col), Value: n.V.Go()}
 		case "gt":
-			return clause.Gt{Column: n.Col, Value: n.V.Go()}
+			return clause.Gt{Column: u.col(n.Col), Value: n.V.Go()}
 		case "like":
-			return clause.Like{Column: n.Col, Value: n.V.Go()}
+			return clause.Like{Column: u.col(n.Col), Value: n.V.Go()}
 		case "isnull":
-			return clause.Eq{Column: n.Col, Value: nil}
+			return clause.Eq{Column: u.col(n.Col), Value: nil}
 		case "in":
 			vals := make([]interface{}, len(n.Vs))
 			for i, c := range n.Vs {
 				vals[i] = c.Go()
 			}
-			return clause.IN{Column: n.Col, Values: vals}
+			return clause.IN{Column: u.col(n.Col), Values: vals}
 		}
 	case "and":
 		xs := make([]clause.Expression, len(n.Xs))
 		for i, x := range n.Xs {
-			xs[i] = renderExpr(x)
+			xs[i] = renderExpr(x, u)
 		}
 		return clause.And(xs...)
 	case "or":
 		xs := make([]clause.Expression, len(n.Xs))
 		for i, x := range n.Xs {
-			xs[i] = renderExpr(x)
+			xs[i] = renderExpr(x, u)
 		}
 		return clause.Or(xs...)
 	case "not":
-		return clause.Not(renderExpr(n.X))
+		return clause.Not(renderExpr(n.X, u))
 	}
 	panic("renderExpr " + n.K + "/" + n.Op)
 }
@@ -281,27 +294,27 @@ func conjuncts(n *Node) []*Node {
 	return []*Node{n}
 }
 
-func renderMap(n *Node) map[string]interface{} {
+func renderMap(n *Node, u Unit) map[string]interface{} {
 	m := map[string]interface{}{}
 	for _, c := range conjuncts(n) {
 		switch c.Op {
 		case "eq":
-			m[c.Col] = c.V.Go()
+			m[u.col(c.Col)] = c.V.Go()
 		case "isnull":
-			m[c.Col] = nil
+			m[u.col(c.Col)] = nil
 		case "in":
 			if c.Col == "s" {
 				ss := []string{}
 				for _, v := range c.Vs {
 					ss = append(ss, v.Go().(string))
 				}
-				m[c.Col] = ss
+				m[u.col(c.Col)] = ss
 			} else {
 				is := []int64{}
 				for _, v := range c.Vs {
 					is = append(is, v.Go().(int64))
 				}
-				m[c.Col] = is
+				m[u.col(c.Col)] = is
 			}
 		default:
 			panic("map form cannot express " + c.Op)
@@ -364,29 +377,37 @@ func (u Unit) args(base *gorm.DB, soft bool) (interface{}, []interface{}) {
 		}
 		return s, a
 	case "map":
-		return renderMap(u.Ast), nil
+		return renderMap(u.Ast, u), nil
 	case "struct":
 		if soft {
 			r := &Row{}
 			for _, c := range conjuncts(u.Ast) {
-				setField(&r.A, &r.B, &r.S, c)
+				if u.Mirror {
+					setField(&r.Ora, &r.Bandb, &r.S, c)
+				} else {
+					setField(&r.A, &r.B, &r.S, c)
+				}
 			}
 			return r, nil
 		}
 		r := &RowP{}
 		for _, c := range conjuncts(u.Ast) {
-			setField(&r.A, &r.B, &r.S, c)
+			if u.Mirror {
+				setField(&r.Ora, &r.Bandb, &r.S, c)
+			} else {
+				setField(&r.A, &r.B, &r.S, c)
+			}
 		}
 		return r, nil
 	case "expr":
 		if u.Multi && u.Ast.K == "and" {
 			xs := make([]interface{}, len(u.Ast.Xs))
 			for i, x := range u.Ast.Xs {
-				xs[i] = renderExpr(x)
+				xs[i] = renderExpr(x, u)
 			}
 			return xs[0], xs[1:]
 		}
-		return renderExpr(u.Ast), nil
+		return renderExpr(u.Ast, u), nil
 	case "group":
 		sub := base
 		for _, s := range u.Sub {
@@ -553,6 +574,12 @@ func randEqConj(r *rand.Rand, forStruct bool) *Node {
 
 // RandUnit draws a unit (conn is set by the caller).
 func RandUnit(r *rand.Rand, depth int, allowGroup bool) Unit {
+	u := randUnit0(r, depth, allowGroup)
+	u.Mirror = r.Intn(3) == 0
+	return u
+}
+
+func randUnit0(r *rand.Rand, depth int, allowGroup bool) Unit {
 	seps := []string{"sp", "sp", "sp2", "tab", "nl"}
 	cases := []string{"upper", "lower", "mixed"}
 	k := r.Intn(12)
